@@ -196,7 +196,8 @@ def enum_lists(seed):
     from pkgcore.ebuild.atom import atom
     fails, cases = [], 0
     rnd = random.Random(seed)
-    specs = ["cat/pkg", "cat/pkg-1.2", "=dev-lang/foo-2-r1", "x/y:3"]
+    # (names in which a hyphen is followed by a digit without that being a version: valid unversioned specs)
+    specs = ["cat/pkg", "cat/pkg-1.2", "=dev-lang/foo-2-r1", "x/y:3", "media-fonts/font-adobe-100dpi", "cat/foo-2bar", "media-fonts/font-adobe-100dpi-1.0"]
 
     def note(model, detail):
         if len(fails) < 5:
@@ -288,10 +289,14 @@ def enum_lists(seed):
                 note({"text": text, "line": ol, "suggestions": {k: list(v) for k, v in sug.items()}}, f"expand of line {ol!r} gives {nl!r}; expected {want!r} (spec, spacing, comment and line ending kept, keywords {kws})")
     # build -> parse
     for _ in range(300):
-        ents = [(atom(rnd.choice(["cat/pkg", "=cat/pkg-1", "x/y:3"])), rnd.sample(["amd64", "~x86", "*", "^"], rnd.choice((0, 1, 2)))) for _ in range(rnd.choice((1, 2, 4)))]
+        ents = [(atom(rnd.choice(["cat/pkg", "=cat/pkg-1", "x/y:3", "media-fonts/font-adobe-100dpi", "cat/foo-2bar"])), rnd.sample(["amd64", "~x86", "*", "^"], rnd.choice((0, 1, 2)))) for _ in range(rnd.choice((1, 2, 4)))]
         cases += 1
-        pl = PackageList.build(ents)
-        got = [(e.pkg, list(e.keywords)) for e in pl.entries if e.pkg is not None]
+        try:
+            pl = PackageList.build(ents)
+            got = [(e.pkg, list(e.keywords)) for e in pl.entries if e.pkg is not None]
+        except Exception as e:
+            note({"entries": [(str(a), k) for a, k in ents]}, f"build({[(str(a), k) for a, k in ents]}) and parsing its text back raised {type(e).__name__}: {e}")
+            continue
         if got != [(a, list(k)) for a, k in ents]:
             note({"entries": [(str(a), k) for a, k in ents]}, f"build({[(str(a), k) for a, k in ents]}) parses back to {[(str(a), k) for a, k in got]}")
     return {"name": "C38.package_lists.bounded_enumeration", "bound": "every single line from 2 leads x 2 specs x 3 gaps x 6 keyword sets x 4 trailing gaps x 6 comments x 2 line endings (parse/render, with_keywords "
